@@ -265,6 +265,7 @@ def tests(work, jobs):
 # checks ordered by quick wall time; per-file relevance first
 SPEED = ["C17", "C11", "C10", "C12", "C01", "C07", "C20", "C13", "C06", "C05", "C14", "C04", "C19", "C03", "C18",
          "C09", "C08", "C02", "C16", "C15"]
+FAST = ["C17", "C11", "C10", "C12", "C01", "C07", "C20", "C14"]
 REL = {
     "a816/writers.py": ["C11", "C12", "C13"],
     "a816/cli.py": ["C12", "C14"],
@@ -303,7 +304,9 @@ def checks(work, jobs, wrk):
         try:
             d = _copy(work, k)
             _mutate_into(d, m)
-            order = REL.get(m["file"], []) + [c for c in SPEED if c not in REL.get(m["file"], [])]
+            # the checks anchored in the mutated file, then the fast general ones; ALL=1 runs every check
+            rel = REL.get(m["file"], [])
+            order = rel + [c for c in (SPEED if os.environ.get("ALL") else FAST) if c not in rel]
             env = dict(os.environ, A816_REPO=d, VERIF_OUT=os.path.join(d, ".verif-out"), VERIF_WORKERS=str(wrk))
             hit, ran = None, []
             for c in order:
@@ -325,8 +328,11 @@ def checks(work, jobs, wrk):
             free.put(k)
 
     t0 = time.time()
+    from concurrent.futures import as_completed
     with ThreadPoolExecutor(jobs) as ex:
-        for n, (i, r) in enumerate(ex.map(one, todo)):
+        futs = [ex.submit(one, m) for m in todo]
+        for n, f in enumerate(as_completed(futs)):
+            i, r = f.result()
             res[str(i)] = r
             json.dump(res, open(resf, "w"))
             print(n, len(todo), i, muts[i]["file"], muts[i]["line"], muts[i]["op"], r["hit"][0] if r["hit"] else "SURVIVED",
